@@ -112,14 +112,28 @@ def run(run):
     stub.install()
     counter = [0]
 
+    class ModAgentToken(A.AuthenticationToken):
+        # the agent sent with authenticate() is taken from these (documented
+        # class attributes): a program authenticating for another product
+        # overrides them
+        AGENT_NAME = 'Scrolls'
+        AGENT_VERSION = 2
+    token_kinds = [0]
+
     def make_token(present):
-        tok = A.AuthenticationToken(
+        token_kinds[0] += 1
+        kind = token_kinds[0] % 4
+        cls_ = ModAgentToken if kind == 1 else A.AuthenticationToken
+        tok = cls_(
             username='u0' if 'username' in present else None,
             access_token='a0' if 'access_token' in present else None,
             client_token='c0' if 'client_token' in present else None)
         tok.profile = A.Profile(
             id_='p0' if 'profile_id' in present else None,
             name='n0' if 'profile_name' in present else None)
+        if kind == 2:
+            # (an attribute of the instance overrides the class's as well)
+            tok.AGENT_VERSION = 7
         return tok
 
     def one_op(tok, op, status, shape, w):
@@ -251,8 +265,8 @@ def run(run):
         ok_payload = isinstance(j, dict)
         if ok_payload:
             if op.startswith('authenticate'):
-                ok_payload = j.get('agent') == {'name': 'Minecraft',
-                                                'version': 1} and \
+                ok_payload = j.get('agent') == {
+                    'name': tok.AGENT_NAME, 'version': tok.AGENT_VERSION} and \
                     j.get('username') == 'user%d' % n and \
                     j.get('password') == 'pw%d' % n
                 if op == 'authenticate':
@@ -399,6 +413,34 @@ def run(run):
                                           e.yggdrasil_error,
                                           e.yggdrasil_message,
                                           e.yggdrasil_cause)})
+        # a token whose profile attribute holds nothing at all
+        if run.shard == 0:
+            for present in (FIELDS, ('username', 'access_token',
+                                     'client_token')):
+                tok = make_token(present)
+                tok.profile = None
+                n_req = len(stub.requests)
+                run.count('tokens_without_a_profile_object')
+                try:
+                    auth = bool(tok.authenticated)
+                except Exception as e:
+                    auth = repr(e)
+                try:
+                    tok.join('serverhash')
+                    jr = 'returned'
+                except YggdrasilError:
+                    jr = 'refused'
+                except Exception as e:
+                    jr = repr(e)
+                if auth is not False or jr != 'refused' or \
+                        len(stub.requests) != n_req:
+                    run.violation('authenticated/no-profile-object',
+                                  'with token.profile = None the token must '
+                                  'report not authenticated and join must '
+                                  'refuse (YggdrasilError) without contacting '
+                                  'the service', {
+                                      'authenticated': auth, 'join': jr,
+                                      'requests': len(stub.requests) - n_req})
         # predicate over all 32 states (no I/O)
         if run.shard == 0:
             for present in subsets:
